@@ -196,7 +196,7 @@ func newC20Fix(proto string, n, limit int) *c20Fix { return newC20FixConf(proto,
 
 func newC20FixConf(proto string, n, limit int, conf *portalwire.PortalProtocolConfig) *c20Fix {
 	st := &fixedRadiusStore{ContentStorage: storage.NewMockStorage(), radius: new(uint256.Int).SetAllOne()}
-	bn := newBareNode(bareOpts{keyIdx: 20, proto: c20Protos[proto], store: st, conf: conf})
+	bn := newBareNode(bareOpts{keyIdx: c20KeyIdx, proto: c20Protos[proto], store: st, conf: conf})
 	bn.P.Utp = portalwire.NewZenEthUtp(context.Background(), &portalwire.PortalProtocolConfig{MaxUtpConnSize: limit}, nil, c20Conn{})
 	bn.P.VerifSetContentIdFunc(func(k []byte) []byte { return k })
 	// a real discv5 endpoint on a wire that loses every datagram: a record refresh (a ping or
